@@ -127,8 +127,18 @@ def run(ctx):
     if not any(v["err"] for v in singles) or not any(len(v["oks"]) > 1 for v in singles):
         raise vlib.Inconclusive("vacuous: no vector admits an error / several outcomes")
 
-    allv = sorted(bases.values(), key=lambda v: v["v"]) + sorted(
-        singles, key=lambda v: (v["v"], json.dumps(v["devs"])))
+    singles.sort(key=lambda v: (v["v"], json.dumps(v["devs"])))
+    replayed_singles = singles
+    if ctx.quick:
+        # Below schema 5 every upgrade path hashes a password (bcrypt, 60 ms).
+        # A deviation of a key that only steps >= 6 concern is enumerated
+        # again on the golden files of schema 5..; the quick tier replays a
+        # seeded quarter of those documents (the thorough tier all of them).
+        early = {"schema_version", "auth_name", "auth_pass", "users", "coredns", "dns", "dns.bootstrap_dns",
+                 "clients", "zz_extra", "dns.zz_extra"}
+        replayed_singles = [v for v in singles if v["start"] >= 5 or v["devs"][0]["k"] in early
+                            or v["devs"][0]["k"].startswith("cl0") or rng.random() < 0.25]
+    allv = sorted(bases.values(), key=lambda v: v["v"]) + replayed_singles
 
     # ---- pairs (thorough): all generated for v >= 5, a seeded sample below
     npairs = 0
@@ -195,7 +205,8 @@ def run(ctx):
         "evaluations": summ["paths"],
         "vectors_generated": len(vectors) + (npairs and len(pairs)) + len(tvecs),
         "vectors_replayed": summ["n"],
-        "single_deviation_vectors": len(singles), "baseline_vectors": len(bases),
+        "single_deviation_vectors": len(singles), "single_deviation_vectors_replayed": len(replayed_singles),
+        "baseline_vectors": len(bases),
         "pair_vectors_replayed": npairs, "trace_documents": len(tvecs),
         "migrate_calls_paths": summ["paths"],
         "distinct_nontrivial": sum(1 for v in allv if nontrivial(v)),
@@ -207,8 +218,9 @@ def run(ctx):
         # points are all replayed only for documents starting at schema >= 5
         # in the thorough tier (below 5 every path costs a bcrypt hash).
         "exhaustive": False,
-        "exhaustive_documents": "every single-deviation document and baseline is replayed in both tiers; "
-                                "pair documents starting below schema 5 are a seeded sample of 600",
+        "exhaustive_documents": "thorough: every single-deviation document and baseline is replayed, pair documents "
+                                "starting below schema 5 are a seeded sample of 600; quick: below schema 5 a seeded "
+                                "quarter of the documents whose deviation only steps >= 6 concern",
         "split_points": "thorough: all k for documents starting at schema >= 5, 3 seeded k below; "
                         "quick: 3 seeded k (one k for a quarter of the documents below schema 5)",
         "samples": samples,
